@@ -562,6 +562,29 @@ def _element_types(expr, pname):
   return None
 
 
+def _element_callees(expr, pname):
+  """Names of the functions `expr` applies to the elements of <pname>
+  (anywhere inside a comprehension over <pname>, or through map())."""
+  out = set()
+  for n in ast.walk(expr):
+    if isinstance(n, (ast.GeneratorExp, ast.ListComp, ast.SetComp, ast.DictComp)):
+      for g in n.generators:
+        if src(g.iter) not in (pname, f"{pname}.items()", f"{pname}.values()",
+                               f"{pname}.keys()", f"sorted({pname})", f"iter({pname})"):
+          continue
+        tnames = {x.id for x in ast.walk(g.target) if isinstance(x, ast.Name)}
+        elts = [n.elt] if not isinstance(n, ast.DictComp) else [n.key, n.value]
+        for e in elts:
+          for m in ast.walk(e):
+            if isinstance(m, ast.Call) and dotted(m.func) and any(
+                isinstance(a, ast.Name) and a.id in tnames for a in m.args):
+              out.add(dotted(m.func))
+    if isinstance(n, ast.Call) and dotted(n.func) == "map" and len(n.args) == 2 \
+        and src(n.args[1]) == pname and dotted(n.args[0]):
+      out.add(dotted(n.args[0]))
+  return out
+
+
 def _resolve_helper(mod, fn, callee):
   """The def a callee name denotes: nested def, module function or self.method."""
   if callee is None:
@@ -733,8 +756,11 @@ def r14_8(ctx):
               "later one receives the earlier one's abstract value (wrong "
               "element types: false alarms and missed errors)", f2)
       continue
-    deep = recursive or any(
-        e[0] == "call" and _is_recursive(mod, a[3], e[1]) for e, a in zip(et, mine))
+    # per arm: some function applied to the elements must call itself (a
+    # self-calling helper elsewhere in the computation does not make *this*
+    # kind's key deep)
+    deep = all(any(_is_recursive(mod, a[3], c) for c in _element_callees(a[2], a[4]))
+               for a in mine)
     if not deep:
       ctx.bad(f"constant_to_value:{k}-key-not-recursive", CONVERT, kd.lineno,
               f"for a {k} the memo key records the types of the direct "
@@ -850,11 +876,8 @@ def _order_helper(ov_ret="[reflected, forward]", default="[forward, reflected]",
 
 
 B = stubs.BUILTINS
-_KEY_TODAY = ("    if pyval.__class__ is tuple:\n"
-              "      type_key = tuple(type(v) for v in pyval)\n"
-              "    else:\n"
-              "      type_key = type(pyval)\n"
-              '    key = ("constant", pyval, type_key)\n')
+_KEY_TODAY = '    key = ("constant", pyval, _type_key(pyval))\n'
+_TUPLE_ARM_TODAY = "    return (tuple, tuple(_type_key(v) for v in pyval))\n"
 VARIANTS = [
     {"name": "binops-swap-add-and", "rule": "R14.1", "file": VM, "expect": "fire",
      "old": "        self.byte_BINARY_ADD,\n        self.byte_BINARY_AND,",
@@ -918,8 +941,8 @@ VARIANTS = [
      "old": "    def __add__(self, y: Union[bytes, bytearray]) -> bytearray: ...",
      "new": "    def __add__(self, y: Union[str, bytes, bytearray]) -> bytearray: ..."},
     {"name": "revert-D20-float-index", "rule": "R14.5", "file": B, "expect": "fire",
-     "old": "    def __hex__(self) -> str: ...\n    if PYTYPE_OPTIONS.strict_primitive_comparisons:\n        def __lt__(self, y: float, /) -> bool: ...",
-     "new": "    def __hex__(self) -> str: ...\n    def __index__(self) -> int: ...\n    if PYTYPE_OPTIONS.strict_primitive_comparisons:\n        def __lt__(self, y: float, /) -> bool: ..."},
+     "old": "    def __floordiv__(self, y: complex) -> complex: ...\n    def __hex__(self) -> str: ...\n",
+     "new": "    def __floordiv__(self, y: complex) -> complex: ...\n    def __hex__(self) -> str: ...\n    def __index__(self) -> int: ...\n"},
     {"name": "str-mul-float", "rule": "R14.5", "file": B, "expect": "fire",
      "old": "    def __mul__(self, n: int) -> str: ...", "new": "    def __mul__(self, n: float) -> str: ..."},
     {"name": "revert-D10-as_integer_ratio", "rule": "R14.6", "file": B, "expect": "fire",
@@ -937,11 +960,15 @@ VARIANTS = [
     {"name": "seeded-C14-m2", "rule": "R14.8", "patch": "seeded/C14-m2/patch.diff",
      "expect": "fire"},
     {"name": "constant-key-without-type", "rule": "R14.8", "file": CONVERT, "expect": "fire",
-     "old": '    key = ("constant", pyval, type_key)\n',
+     "old": _KEY_TODAY,
      "new": '    key = ("constant", pyval)\n'},
     {"name": "tuple-key-records-length-only", "rule": "R14.8", "file": CONVERT, "expect": "fire",
-     "old": "      type_key = tuple(type(v) for v in pyval)\n",
-     "new": "      type_key = (tuple, len(pyval))\n"},
+     "old": _TUPLE_ARM_TODAY,
+     "new": "    return (tuple, len(pyval))\n"},
+    # the defect repaired by "the constant cache key records element types recursively"
+    {"name": "tuple-key-one-level", "rule": "R14.8", "file": CONVERT, "expect": "fire",
+     "old": _TUPLE_ARM_TODAY,
+     "new": "    return (tuple, tuple(type(v) for v in pyval))\n"},
     {"name": "literal-memo-on-raw-value", "rule": "R14.8", "file": CONVERT, "expect": "fire",
      "old": "      value = pyval\n    return self.constant_to_value(value, subst)\n",
      "new": "      value = pyval\n    memo = (\"literal\", pyval)\n"
@@ -950,14 +977,15 @@ VARIANTS = [
             "    return self._convert_cache[memo]\n"},
     {"name": "twin-recursive-type-key-helper", "rule": "R14.8", "expect": "silent",
      "edits": [
-         (CONVERT, _KEY_TODAY, '    key = ("constant", pyval, _type_key(pyval))\n'),
+         # today's helper in guard-clause style, under another name
+         (CONVERT, _KEY_TODAY, '    key = ("constant", pyval, _memo_types(pyval))\n'),
          (CONVERT, "class Converter(utils.ContextWeakrefMixin):\n",
-          "def _type_key(pyval):\n"
-          "  if pyval.__class__ is tuple:\n"
-          "    return (tuple, tuple(_type_key(v) for v in pyval))\n"
-          "  if pyval.__class__ is frozenset:\n"
-          "    return (frozenset, frozenset((v, _type_key(v)) for v in pyval))\n"
-          "  return type(pyval)\n\n\n"
+          "def _memo_types(const):\n"
+          "  if const.__class__ is tuple:\n"
+          "    return (tuple, tuple(_memo_types(v) for v in const))\n"
+          "  if const.__class__ is frozenset:\n"
+          "    return (frozenset, frozenset((v, _memo_types(v)) for v in const))\n"
+          "  return type(const)\n\n\n"
           "class Converter(utils.ContextWeakrefMixin):\n")]},
     {"name": "twin-recursive-type-key-method", "rule": "R14.8", "expect": "silent",
      "edits": [
@@ -972,4 +1000,59 @@ VARIANTS = [
           "                           for e in const)))\n"
           "    return const.__class__\n\n"
           "  def _load_late_type(self, late_type):\n")]},
+]
+
+EXPLANATION += (
+    "  R14.22 (rules/c14_overrides.py): the predicate behind R14.3's "
+    "`_overrides(y.cls, x.cls, rop)` - found by role: the module function "
+    "_call_binop_on_bindings (or a helper it calls) hands (<right>.data.cls, "
+    "<left>.data.cls, <reflected name>) - is *evaluated* from its AST "
+    "(rules/_minieval.py; module-local helpers such as _base are interpreted "
+    "too) over a class model (.mro, .members[name].bindings, eagerly filled "
+    "like InterpreterClass or lazily through load_lazy_attribute like "
+    "PyTDClass) for every ordered pair of classes of a small scope of "
+    "hierarchies: the chain A<-B<-C with a sibling S(A) under all 64 "
+    "placements of __sub__/__rsub__, and D(M, B) with a mixin in front.  The "
+    "method pytype would try first given the predicate's answer must be the "
+    "method the host CPython calls first on real classes of the same shape "
+    "(built with type(); both methods log and return NotImplemented): the "
+    "reflected method goes first only when the right operand's class is a "
+    "proper subclass of the left's and provides another implementation than "
+    "the left operand's class sees (binary_op1 / method_is_overloaded).  "
+    "Pairs in which only one of the two methods exists are not compared (the "
+    "answer is unobservable).  Blind spots of R14.22: ParameterizedClass "
+    "operands (the _base unwrapping is executed but never exercised with a "
+    "wrapper), metaclass-provided operators, and two layouts in which today's "
+    "pytype is wrong and which are therefore kept out of the scope and parked "
+    "in rules/pending_c14_overrides_lookup.py (R14.23): a class *behind* the "
+    "left operand's class in the right operand's MRO that is not its ancestor "
+    "provides the reflected method (D(B, M), diamond Y(X, Z)), and "
+    "same-class operands whose class has only the reflected method.  "
+    "R14.24 (rules/c14_visibility.py): the attribute handler's visibility "
+    "filter (found by role: `attr = self.<m>(node, attr)` re-binding its own "
+    "argument before `return node, attr`; today _filter_var, two sites) and "
+    "the module-local helpers it hands the variable to read `<input>.bindings` "
+    "only as a size query, on a path that establishes at most one binding "
+    "(len tests are solved arithmetically), or as the source of a "
+    "comprehension filtered per binding by IsVisible(node)/HasCombination; "
+    "every Bindings/Filter/FilteredData/Data query names the node parameter; "
+    "the input is returned unfiltered only under a test comparing it with a "
+    "solver answer; the filter asks the solver at all; and in attribute.py / "
+    "vm.py a function that touches a reachability API (is_reachable, "
+    "CanHaveCombination) reads no variable's .bindings.  Reachability does not "
+    "model shadowing: `box.num = 'one'` pastes into the same member variable "
+    "and only the solver hides the value from __init__, so a stale binding "
+    "that supports `+ 1` silences the plain type mistake.  Blind spots of "
+    "R14.24: lookups that bypass the filter (members read directly by the VM), "
+    "a per-binding solver test inside a for-loop (analysis error), and the "
+    "correctness of the solver itself (C07-C09).")
+ASSUMPTIONS += [
+    "R14.22: the host CPython's dispatch order for user classes is the "
+    "reference; a method counts as 'defined by a class' when the class's "
+    "members map holds a variable with at least one binding; aliasing one "
+    "function object under a class attribute of two classes is not modelled",
+    "R14.24: Variable.Bindings/Filter/FilteredData/Data and "
+    "Binding.IsVisible / CFGNode.HasCombination are the solver's visibility "
+    "API; Program.is_reachable and CFGNode.CanHaveCombination are "
+    "reachability-only approximations (typegraph/cfg.cc)",
 ]
